@@ -172,6 +172,10 @@ bool Instance::parse_pretend_valid_expr(const char* expr) {
         }
         p = c = c + (*c != 0);
     }
+    if (got_sig) {
+        fprintf(stderr, "parse error (missing pubkey after signature) at end of %s\n", expr);
+        return false;
+    }
     return true;
 }
 
